@@ -7,6 +7,7 @@
   Hence every command applied by anyone — nested reactions, manual runs, a re-run of the same reactor, probes — starts
   from cleared flags and sees only what its own `setup` establishes.
 -/
+import Cobweb.Proofs.Boot
 import Cobweb.Proofs.Trackers
 import Cobweb.Proofs.Flags
 import Cobweb.Theorems.C03
@@ -168,9 +169,9 @@ theorem take_once (s : St) (w : Option Nat) (ty : Nat) (x : DataEnt)
     uses *is* flagged as reacting: the run can read its event. Together with `C04_every_run_starts_idle` and
     `C04_flag_means_cleanup_pending`: a tracker is flagged exactly from the `setup` of a run that uses it to that run's
     `cleanup`. -/
-theorem C04_flags_exact {p : Prog} {h : Hist} {s : St} (hr : Reach p h ({} : St) s) (k : Kind) (T : TrkId)
+theorem C04_flags_exact {p : Prog} {h : Hist} {s : St} {s0 : St} (hI0 : CoreInv s0) (hr : Reach p h s0 s) (k : Kind) (T : TrkId)
     (hp : PendCleanup s k) (hu : uses T k = true) : flagOf T s = true :=
-  (inv5_reach p h inv5_default hr).used k T hp hu
+  ((core_reach_from p h hI0 hr).inv5).used k T hp hu
 
 example : Used ({} : St) := used_default
 
@@ -181,10 +182,10 @@ example : Idle ({} : St) := ⟨rfl, rfl, rfl, rfl⟩
     `setup`, so every reader reports that there is nothing to read (`idle_sees_nothing`); and a run caused by an event sees
     that event only (`C03.C03_all` with the per-reader theorems). Together with `C04_flags_exact` (the flags stay exactly
     these until the run's cleanup) and the cleanup placement lemmas this is C04 for whole executions. -/
-theorem C04_plain_run_sees_nothing (p : Prog) (h : Hist) {s : St} (hr : Reach p h ({} : St) s) {sys idx : Nat} {rest : List Frame}
+theorem C04_plain_run_sees_nothing (p : Prog) (h : Hist) {s : St} {s0 : St} (hI0 : CoreInv s0) (hr : Reach p h s0 s) {sys idx : Nat} {rest : List Frame}
     (hst : s.stack = Frame.runnerLookup sys .plain idx :: rest) :
     Idle (setupK { s with stack := rest, storage := upd s.storage sys (some false), counter := s.counter + 1 } .plain sys) := by
-  have := (C03.C03_all p h hr hst).2
+  have := (C03.C03_all p h hI0 hr hst).2
   simpa [C03.FlagsFor, Idle] using this
 
 end Cobweb.C04
